@@ -241,6 +241,32 @@ OBLIGATIONS.append(M("C13", "c13_hash_composition", {"q": "hash_layer"}, ["Hash:
                      stubs=("E2 hash models: primitive engines (Sha256, Sha1, Ripemd160, Sha512) accumulate the bytes they are fed and finalise to an uninterpreted function of them; Hmac<T> and pbkdf2::<Hmac<T>> are uninterpreted functions of their arguments; "
                             "the digest crate's blanket Digest impl (new/update/chain/finalize/digest) is modelled in terms of the crate's own Default/Update/FixedOutput impls",)))
 
+# ---------------------------------------------------------------- C11 (BIE1 framing glue only)
+EXPLANATION["C11"] = ("Partial: the FRAMING GLUE only. Elliptic-curve arithmetic (ECDH point, public-key derivation, point (de)compression and validation), SHA-512, AES-128-CBC and "
+                      "HMAC-SHA256 are uninterpreted functions of the bytes they are given - their agreement with the standards is NOT decided here. E2 executes the crate's own code from MIR and "
+                      "decides, for all keys, messages and both inclusion modes: iv/ke/km are bytes 0..16 / 16..32 / 32..64 of SHA-512(compressed ECDH point); encrypt puts AES-128-CBC(ke, iv, message) "
+                      "in the body, the sender's COMPRESSED public key in the key slot (for either compression flag of the sender key) and HMAC-SHA256(km, 'BIE1' || key || body) in the MAC; to_bytes is "
+                      "'BIE1' || key || body || MAC and from_bytes(to_bytes(c)) returns the same three parts for every body length; decrypt of an ARBITRARY ciphertext value returns plaintext only on "
+                      "paths where the stored MAC equals HMAC-SHA256(km, 'BIE1' || embedded key || body) - so every body, key and MAC byte is covered - and then returns AES-128-CBC^-1(ke, iv, body); "
+                      "a matching MAC with valid padding is never rejected. decrypt(encrypt(m)) = m follows from these equalities together with ECDH symmetry and AES invertibility, which are assumed.")
+OBLIGATIONS.append(M("C11", "c11_bie1_glue", {"q": "ecies"}, ["ECIES::derive_cipher_keys_impl", "ECIES::encrypt_impl", "ECIES::decrypt_impl", "ECIESCiphertext::to_bytes", "ECIESCiphertext::from_bytes_impl",
+                                                              "PrivateKey::to_public_key_impl", "PublicKey::{to_compressed_impl,to_bytes_impl,from_bytes_impl,from_encoded_point}", "AES::{encrypt_impl,decrypt_impl} (CBC-128 arm)", "Hash::{sha_512,sha_256_hmac,hmac}"],
+                     "all 32-byte secrets, both compression flags, public-key encodings of symbolic length <= 65, messages/bodies of symbolic length (64-bit), both inclusion modes; MAC field 32 bytes and embedded key 33 bytes in the round-trip query (the only sizes the constructors produce); decrypt from an arbitrary ciphertext value with an embedded key of any length <= 65", cost=1,
+                     stubs=("E2 ECIES models: SecretKey::to_nonzero_scalar, PublicKey::from_sec1_bytes / to_projective / Mul / to_affine / from_affine / to_encoded_point -> ECDH_COMPRESSED(secret, peer key bytes); "
+                            "PrivateKey::get_point -> PUBKEY_(UN)COMPRESSED(secret); PublicKey::to_decompressed_impl -> POINT_DECOMPRESS; sec1 EncodedPoint::from_bytes -> validity predicate, compress -> POINT_COMPRESS; "
+                            "Cbc::new_from_slices / encrypt_vec / decrypt_vec -> CBC_<cipher>_<padding>_{ENCRYPT,DECRYPT,DECRYPT_OK}(key, iv, data) with the key/IV size test; hash engines and Hmac as in C13",
+                            "assumed: public keys held in PublicKey values are valid point encodings (constructor invariant)")))
+
+# ---------------------------------------------------------------- C20 (mode dispatch only)
+EXPLANATION["C20"] = ("Partial: the MODE DISPATCH only. The block cipher, CBC/PKCS#7 and CTR implementations (aes, block-modes crates) are uninterpreted functions - equality with standard AES, "
+                      "the padding rule, ciphertext lengths and decrypt-inverts-encrypt inside those crates are NOT decided. E2 executes AES::encrypt_impl / decrypt_impl / aes_ctr from MIR for each of the "
+                      "four modes and decides, for keys, IVs and messages of arbitrary length: the call fails iff the key size is not 16 (AES-128) / 32 (AES-256) or the IV size is not 16 (or, CBC decryption, "
+                      "the primitive reports bad padding); otherwise the result is exactly CBC_<cipher>_PKCS7 encrypt/decrypt of (key, iv, message) for the cipher the mode names, or the CTR keystream of "
+                      "(key, iv) for that cipher applied from offset 0 to the whole message, returned unmodified.")
+OBLIGATIONS.append(M("C20", "c20_mode_dispatch", {"q": "aes_dispatch"}, ["AES::encrypt_impl", "AES::decrypt_impl", "AES::aes_ctr::<Aes128Ctr>", "AES::aes_ctr::<Aes256Ctr>"],
+                     "all four AESAlgorithms variants x both directions; key and IV of symbolic length <= 64, message of symbolic length (64-bit)", cost=1,
+                     stubs=("E2 AES models: Cbc::<C, P>::new_from_slices / encrypt_vec / decrypt_vec and <T as NewCipher>::new_from_slices / StreamCipherSeek::seek / StreamCipher::apply_keystream are uninterpreted functions named after the concrete cipher type at the call site, with the key/IV size test of the real constructors",)))
+
 
 def for_property(pid):
     return [dict(o) for o in OBLIGATIONS if o["property"] == pid]
